@@ -186,7 +186,11 @@ where
             query_impl(&prss, gateway, &config, input_stream).await
         };
 
-        tx.send(v).unwrap();
+        // The receiving end is gone if the query was forgotten while this task was still running
+        // (e.g. `complete` gave up because a shard rejected it). That must not panic the task.
+        if tx.send(v).is_err() {
+            tracing::warn!("query finished, but nobody is waiting for its result");
+        }
     });
 
     RunningQuery {
